@@ -633,3 +633,11 @@ Proof.
   eapply noop_symlink_policy; [reflexivity | | exact Hl].
   destruct Hs as [-> | ->]; cbn; auto.
 Qed.
+
+Lemma errors_do_not_stop_repaired modf acts args answers f g :
+  let r := process repaired_code modf acts args answers f g in
+  rfatal r = false /\ map fst (rlog r) = fst (expand f args) /\
+  (forall file k, In (file, Error k) (rlog r) -> rexit r = 1%N /\ In (file, k) (rerrors r)) /\
+  (forall e, In e (snd (expand f args)) -> rexit r = 1%N /\ In e (rerrors r)) /\
+  (forall file, In (file, ExitOne) (rlog r) -> rexit r = 1%N).
+Proof. apply errors_do_not_stop. left. reflexivity. Qed.
